@@ -1,9 +1,12 @@
 (* C38 — config converter preserves valid v1 settings   (PARTIAL: see below)
    Only theorem statements closed by [exact]; proofs live in Proofs/Convert.v.
-   Claimed here: the table-driven relocation of v1 settings to their v2 place, and the rules conversion for
-   sections with integer parameters and field lists. NOT covered by theorems: value transforms other than the
-   identity (memory sizes, string arrays, maps, renamed choices), RulesBasedSampler rule/condition trees, the
-   helm conversion; "passes v2 validation" is established by running the real validator, not by a theorem. *)
+   Claimed here: the table-driven relocation of v1 settings to their v2 place; per setting, the converter's
+   write-or-leave-out policy by valuetype composed with the v2 loader's zero-is-unset policy; the rules conversion
+   for sections with integer parameters, field lists and RulesBasedSampler rule trees (as opaque ordered rule
+   texts). NOT covered by theorems: the text of the value transforms themselves (memory size and duration
+   rendering, float formatting are compared end to end only), maps (v2-only), the v1 Logger -> Logger.Type value
+   renaming (known finding), the helm conversion; "passes v2 validation" is established by running the real
+   validator, not by a theorem. *)
 From Refinery Require Import Lib.Base Gen.GenC38 Model.Convert Proofs.Convert.
 Local Open Scope string_scope.
 
@@ -38,6 +41,7 @@ Print Assumptions C38_rules_sections_preserved_partial.
 Theorem C38_rules_parameters_preserved_partial : forall name s,
   se_type (conv_section name s) = (if String.eqb (se_type s) "" then "DeterministicSampler" else se_type s) /\
   se_fields (conv_section name s) = se_fields s /\
+  se_rules (conv_section name s) = se_rules s /\
   (forall k v, In (k, v) (se_params s) -> k <> "ClearFrequencySec" -> k <> "AdjustmentInterval" ->
      In (k, v) (se_params (conv_section name s))) /\
   (forall v, In ("ClearFrequencySec", v) (se_params s) -> In ("ClearFrequency", (v * second)%Z) (se_params (conv_section name s))) /\
@@ -45,11 +49,37 @@ Theorem C38_rules_parameters_preserved_partial : forall name s,
 Proof. exact conv_section_spec. Qed.
 Print Assumptions C38_rules_parameters_preserved_partial.
 
+(* One setting through converter and loader (valuetype policy of tools/convert/helpers.go, zero-is-unset policy
+   of the v2 loader): the effective v2 value is the v1 value, or the v1 value is a zero that the v2 field cannot
+   hold (non-pointer field: the v2 default applies), or the converter left it out (then the v2 default applies). *)
+Theorem C38_setting_value_cases_partial : forall s,
+  loaded s = si_v1 s \/
+  (emits s = true /\ zero_text (si_v1 s) = true /\ si_ptr s = false /\ loaded s = si_sdefault s) \/
+  (emits s = false /\ loaded s = si_sdefault s).
+Proof. exact loaded_cases. Qed.
+Print Assumptions C38_setting_value_cases_partial.
+
+(* explicit false / zero is not lost where v2 can hold it; non-zero written values are kept; a nondefault setting
+   is only left out when it prints like the documented default *)
+Theorem C38_explicit_zero_kept_partial : forall s,
+  si_vt s = "nondefault" -> si_text s <> si_mdefault s -> si_ptr s = true -> loaded s = si_v1 s.
+Proof. exact explicit_zero_kept. Qed.
+Print Assumptions C38_explicit_zero_kept_partial.
+
+Theorem C38_written_nonzero_kept_partial : forall s, emits s = true -> zero_text (si_v1 s) = false -> loaded s = si_v1 s.
+Proof. exact written_nonzero_kept. Qed.
+Print Assumptions C38_written_nonzero_kept_partial.
+
+Theorem C38_nondefault_left_out_only_at_default_partial : forall s,
+  si_vt s = "nondefault" -> emits s = false -> si_text s = si_mdefault s.
+Proof. exact nondefault_left_out. Qed.
+Print Assumptions C38_nondefault_left_out_only_at_default_partial.
+
 (* Non-vacuity *)
 Example C38_nonvacuous :
-  let d := {| se_name := ""; se_type := "DynamicSampler"; se_params := [("SampleRate", 10%Z); ("ClearFrequencySec", 45%Z)]; se_fields := ["a"] |} in
-  let s1 := {| se_name := "ds1"; se_type := "EMADynamicSampler"; se_params := [("GoalSampleRate", 5%Z); ("AdjustmentInterval", 15%Z)]; se_fields := ["b"; "c"] |} in
-  let s2 := {| se_name := "ds2"; se_type := ""; se_params := [("SampleRate", 7%Z)]; se_fields := [] |} in
+  let d := {| se_name := ""; se_type := "DynamicSampler"; se_params := [("SampleRate", 10%Z); ("ClearFrequencySec", 45%Z)]; se_fields := ["a"]; se_rules := [] |} in
+  let s1 := {| se_name := "ds1"; se_type := "EMADynamicSampler"; se_params := [("GoalSampleRate", 5%Z); ("AdjustmentInterval", 15%Z)]; se_fields := ["b"; "c"]; se_rules := [] |} in
+  let s2 := {| se_name := "ds2"; se_type := ""; se_params := [("SampleRate", 7%Z)]; se_fields := []; se_rules := [] |} in
   map (fun s => (se_name s, se_type s, se_params s)) (convert_rules d [s1; s2]) =
     [("__default__", "DynamicSampler", [("SampleRate", 10%Z); ("ClearFrequency", 45000000000%Z)]);
      ("ds1", "EMADynamicSampler", [("GoalSampleRate", 5%Z); ("AdjustmentInterval", 15000000000%Z)])] /\
